@@ -3,7 +3,7 @@
    (Bcast.v, the only place where panrpc closes or sends on shared channels), a panic outside a
    recovered path, a result-arity mismatch of a stub (Link.v: the recover path always yields the
    declared number of results — [CReturned] carries a value and an error for both arities). *)
-From Verif Require Import Base Bcast BcastProofs Link LinkProofs LinkInv16 LinkInvB.
+From Verif Require Import Base Bcast BcastProofs Link LinkProofs LinkInv16 LinkInvB Regions RegionsProofs.
 
 (* The pending-call table (Broadcaster) never crashes, for all client programs and schedules —
    in particular for the registry's use of it: waiter Receive/receive/Free, publisher Publish,
@@ -58,3 +58,63 @@ Proof.
   - exact H3.
 Qed.
 Print Assumptions no_internal_deadlock.
+
+(* ---- deadlocks on panrpc's mutexes (the models above have no mutexes: their steps are the critical
+   sections).  The table of critical sections is re-extracted from the sources on every run (tools/regions,
+   go/ast) and [regions_ok table = true] is re-checked by vm_compute (work/C05/RegionTable.v).  For every
+   table that satisfies the discipline, over all threads that nest critical sections as the table permits
+   (application code running as a hook or enumeration callback may re-enter panrpc for calls and closures;
+   it does not link or enumerate the same registry - the documented restriction, which is also the
+   exclusion of C02's quantifier): *)
+
+(* no cycle of threads each waiting for a mutex the next one holds *)
+Theorem no_mutex_deadlock :
+  forall tbl l, regions_ok tbl = true -> Forall (treach tbl) l -> ~ wait_cycle l.
+Proof. exact no_wait_cycle_lemma. Qed.
+Print Assumptions no_mutex_deadlock.
+
+(* the mutex a thread waits for outranks every mutex it holds *)
+Theorem lock_order :
+  forall tbl t m r, regions_ok tbl = true -> treach tbl t -> want t = Some m -> In r (stack t) ->
+    rank (r_mutex r) < rank m.
+Proof. exact ranks_lemma. Qed.
+Print Assumptions lock_order.
+
+(* a thread inside a critical section of the Broadcaster, the closure table or the fatal-error slot waits
+   for no mutex, runs no code but panrpc's own and the standard library's, and performs no blocking
+   operation (other than waiting on the section's own condition variable, which releases the mutex): the
+   section is a closed, finite piece of code - the side condition under which Link.v and Bcast.v take the
+   operations on these tables as atomic steps, and under which a thread waiting for such a mutex gets it *)
+Theorem leaf_sections_closed :
+  forall tbl t r st, regions_ok tbl = true -> treach tbl t -> stack t = r :: st -> rank (r_mutex r) = 1 ->
+    want t = None /\ r_dynamic r = [] /\ forallb is_own_wait (r_blocking r) = true /\ r_inner r = 0.
+Proof. exact leaf_sections_closed_lemma. Qed.
+Print Assumptions leaf_sections_closed.
+
+(* non-vacuity: the table of the tree as given satisfies the discipline and admits a thread two sections
+   deep (an enumeration callback making a call that registers a closure); tables with the shapes of seeded
+   changes are rejected: the closure table's lock held across the invocation of the closure, the enumeration
+   releasing without defer, a failure path that takes the registry's lock again *)
+Definition table_as_given : list region :=
+  [mkRegion (MLeaf 0) SOther false [] [] 0; mkRegion (MLeaf 1) SOther false [] [] 0;
+   mkRegion (MLeaf 2) SOther false [] [BCondWaitOwn] 0; mkRegion (MLeaf 2) SOther false [] [] 0;
+   mkRegion MOuter SSetup false [DHook; DHook] [] 0; mkRegion MOuter STeardown false [DHook; DHook] [] 0;
+   mkRegion MOuter SEnumerate true [DCallback] [] 0].
+Example table_as_given_ok : regions_ok table_as_given = true.
+Proof. reflexivity. Qed.
+Example two_deep_reachable :
+  treach table_as_given (mkT [mkRegion (MLeaf 1) SOther false [] [] 0; mkRegion MOuter SEnumerate true [DCallback] [] 0] None).
+Proof.
+  eapply TR_enter; [|simpl; right; left; reflexivity|reflexivity].
+  apply TR_app_want; [|simpl; congruence].
+  eapply TR_enter; [|simpl; do 6 right; left; reflexivity|reflexivity].
+  apply TR_want_outside. apply TR_idle.
+Qed.
+Example closure_run_under_lock_rejected : regions_ok [mkRegion (MLeaf 1) SOther true [DOther] [] 0] = false.
+Proof. reflexivity. Qed.
+Example enumeration_without_defer_rejected : regions_ok [mkRegion MOuter SEnumerate false [DCallback] [] 0] = false.
+Proof. reflexivity. Qed.
+Example outer_lock_on_failure_path_rejected : regions_ok [mkRegion MOuter SOther false [] [] 0] = false.
+Proof. reflexivity. Qed.
+Example send_under_lock_rejected : regions_ok [mkRegion (MLeaf 0) SOther false [] [BOther] 0] = false.
+Proof. reflexivity. Qed.
